@@ -25,6 +25,10 @@ func main() {
 		cmdC19(os.Args[2:])
 	case "c02", "c03", "c05", "c12":
 		cmdRouter(strings.ToUpper(os.Args[1]), os.Args[2:])
+	case "replay":
+		cmdReplay(os.Args[2:])
+	case "selftest":
+		cmdSelftest(os.Args[2:])
 	case "c15":
 		cmdC15(os.Args[2:])
 	case "c17":
